@@ -372,3 +372,41 @@ def run(check):
       else:
         r_f.violate('%s: rejected names are not passed on as received' % q, fn, pnode.ast, 'when TaggedSeries.parse rejects a name, '
                     '%s does not go on to %s() with the unmodified `%s`' % (q, sinkname, mvar))
+  rule_tag_chars_scanned(check, cx, check.rule('R-C18-tag-chars-scanned', 1, 'the prohibited-character test covers every position of a tag'))
+
+
+def rule_tag_chars_scanned(check, cx, rule):
+  """the prohibited-character test of validateTagAndValue looks at EVERY position of the tag: a loop / any() over the characters
+  with `in`, or a regex used through .search().  A character class used through .match() is anchored at position 0 and accepts
+  `i!f` or `if^`; such names are then normalised (reordered, syntax-converted) instead of being stored and relayed verbatim."""
+  fn = cx.fn('carbon.util', 'TaggedSeries.validateTagAndValue')
+  if not rule.require(fn is not None, 'TaggedSeries.validateTagAndValue not found'):
+    return
+  cls = fn.cls
+  pv = cls.attrs.get('prohibitedTagChars')
+  ptext = pv.value if isinstance(pv, ast.Constant) and isinstance(pv.value, str) else None     # the normal form has the constant folded in
+
+  def mentions(v):
+    return 'prohibitedTagChars' in unparse(v) or (ptext is not None and any(isinstance(x, ast.Constant) and x.value == ptext for x in ast.walk(v)))
+  derived = {k for k, v in cls.attrs.items() if v is not None and k != 'prohibitedTagChars' and mentions(v)}
+  derived |= {k for k, vals in fn.module.globals.items() if any(mentions(v) for v in vals)}
+  uses = [x for x in ast.walk(fn.node) if (isinstance(x, ast.Attribute) and x.attr in derived | {'prohibitedTagChars'}) or
+          (isinstance(x, ast.Name) and x.id in derived | {'prohibitedTagChars'}) or
+          (ptext is not None and isinstance(x, ast.Constant) and x.value == ptext)]
+  if not rule.require(bool(uses), 'validateTagAndValue does not consult prohibitedTagChars (directly or through a derived constant)'):
+    return
+  bad = []
+  for c in ast.walk(fn.node):
+    if isinstance(c, ast.Call) and isinstance(c.func, ast.Attribute) and c.func.attr in ('match', 'fullmatch'):
+      recv = c.func.value
+      rn = recv.attr if isinstance(recv, ast.Attribute) else (recv.id if isinstance(recv, ast.Name) else None)
+      if rn in derived or (rn == 're' and c.args and any(isinstance(x, (ast.Name, ast.Attribute)) and
+                                                          (getattr(x, 'attr', None) or getattr(x, 'id', None)) in derived | {'prohibitedTagChars'}
+                                                          for x in ast.walk(c.args[0]))):
+        bad.append(c)
+  if bad:
+    rule.violate('prohibited characters tested at position 0 only', fn, bad[0], '`%s` applies the prohibited-character class through '
+                 '.%s(), which only looks at the start of the tag: a forbidden character further in is accepted, and the name is '
+                 'normalised instead of being kept verbatim' % (short(bad[0], 50), bad[0].func.attr))
+  else:
+    rule.ok('prohibited characters are looked for at every position of the tag', fn.loc(uses[0]))
